@@ -218,10 +218,10 @@ func keyOf(t *Table, i int) []Val {
 	if len(t.Keys) == 2 && t.Keys[0].Typ == "VARCHAR" && t.Keys[1].Typ == "VARCHAR" && i >= 1 && i <= len(keyPairs) {
 		return []Val{vStr(keyPairs[i-1][0]), vStr(keyPairs[i-1][1])}
 	}
-	if len(t.Keys) == 1 && t.Keys[0].Big {
+	if len(t.Keys) == 1 && t.Keys[0].Big && t.Keys[0].Typ == "BIGINT" {
 		return []Val{vInt(1800000000000000000 + int64(i))}
 	}
-	if len(t.Keys) == 1 && t.Keys[0].Num {
+	if len(t.Keys) == 1 && t.Keys[0].Num && t.Keys[0].Typ == "VARCHAR" {
 		if num := []string{"1", "01", "1.0", "1e0", " 1", "10.5", "10.50", "+1"}; i >= 1 && i <= len(num) {
 			return []Val{vStr(num[i-1])}
 		}
@@ -245,7 +245,9 @@ func keyOf(t *Table, i int) []Val {
 		} else if j == 0 {
 			k = append(k, vInt(int64(i)))
 		} else {
-			k = append(k, vInt(int64(i%3)))
+			// never 0: on the integrated tree an explicit 0 in a primary-key column is taken for "generate it" and the INSERT
+			// fails when the table has no AUTO_INCREMENT column (phase one, C18's subject; reported)
+			k = append(k, vInt(int64(i%3)+1))
 		}
 	}
 	return k
